@@ -158,6 +158,8 @@ def run(ctx):
             break
     ctx.traces += len(recs)
     ctx.sample({"spec_to_code_chunks": recs[len(recs) // 3]})
+    from harness.apalache import chunk_arith
+    chunk_arith(ctx)            # the same Start / End operators for unbounded n and n_chunks (optional extra)
     # (A2) assembly machine, exhaustive: every order with repetition up to MaxLoads
     an, ak, al = (4, 4, 4) if ctx.quick else (5, 4, 5)
     r = ctx.tlc("DistChunks", _cfg(tlc, an, ak, al, False, False), note="assembly n<=%d k<=%d loads<=%d" % (an, ak, al), coverage=True)
